@@ -4,6 +4,7 @@ import (
 	"fmt"
 	stackage "github.com/JesseCoretta/go-stackage"
 	"math"
+	"sort"
 	"strings"
 
 	"verifharness/core"
@@ -162,8 +163,94 @@ func randListOp(r *core.Rng, L int, fifoOn bool, next func() any) LOp {
 	}
 }
 
+// c01Sort: the Stack as a sort.Interface. With a user LessFunc over distinct ints, sort.Sort / sort.Stable must leave
+// exactly the sorted permutation (Len, Swap and Less act on the positions they are given); without one, the default
+// ordering must at least leave a permutation of what was there, and sorting twice changes nothing more.
+func c01Sort(c *core.Ctx) {
+	r := c.Rng
+	cfg := randListCfg(r)
+	cfg.Cap = 0
+	s, _ := cfg.Build()
+	n := r.Range(0, 40)
+	if r.Chance(1, 10) {
+		n = r.Range(100, 400)
+	}
+	perm := make([]int, n)
+	for i := range perm {
+		perm[i] = i * 3
+	}
+	for i := n - 1; i > 0; i-- {
+		j := r.Intn(i + 1)
+		perm[i], perm[j] = perm[j], perm[i]
+	}
+	for _, v := range perm {
+		s.Push(v)
+	}
+	desc := map[string]any{"cfg": cfg.String(), "len": n}
+	custom := r.Chance(2, 3)
+	desc["custom_less"] = custom
+	if custom {
+		desc2 := r.Bool()
+		s.SetLessFunc(func(i, j int) bool {
+			a, _ := s.Index(i)
+			b, _ := s.Index(j)
+			if desc2 {
+				return a.(int) > b.(int)
+			}
+			return a.(int) < b.(int)
+		})
+		desc["descending"] = desc2
+	}
+	stable := r.Bool()
+	if p, msg, site := Guard(func() {
+		if stable {
+			sort.Stable(s)
+		} else {
+			sort.Sort(s)
+		}
+	}); p {
+		c.Violatef("Sort:panic:"+site, desc, "sorting panicked: %s", msg)
+		return
+	}
+	c.Count("sorted-stacks")
+	got := contentOf(s)
+	if len(got) != n || s.Len() != n {
+		c.Violatef("Sort:Len", desc, "sorting changed the length from %d to %d", n, s.Len())
+		return
+	}
+	seen := map[int]bool{}
+	for _, v := range got {
+		iv, ok := v.(int)
+		if !ok || seen[iv] || iv%3 != 0 || iv < 0 || iv >= 3*n {
+			c.Violatef("Sort:content", desc, "after sorting the stack holds %s (not a permutation of what was pushed)", showList(got))
+			return
+		}
+		seen[iv] = true
+	}
+	if custom {
+		for i := 1; i < n; i++ {
+			a, b := got[i-1].(int), got[i].(int)
+			if (desc["descending"].(bool) && a < b) || (!desc["descending"].(bool) && a > b) {
+				c.Violatef("Sort:order", desc, "after sorting with the user's LessFunc positions %d,%d hold %d,%d: %s", i-1, i, a, b, showList(got))
+				return
+			}
+		}
+	}
+	first := showList(got)
+	sort.Stable(s)
+	if again := showList(contentOf(s)); again != first {
+		c.Violatef("Sort:idempotence", desc, "sorting a sorted stack changed it: %s -> %s", first, again)
+		return
+	}
+	c.NontrivialStr("sort|" + core.JSON(desc))
+}
+
 func c01Run(c *core.Ctx, idx int) {
 	maxLen, exh, _ := c01Tier(c.Tier)
+	if idx >= exh && idx%97 == 96 {
+		c01Sort(c)
+		return
+	}
 	r := c.Rng
 	cfg := randListCfg(r)
 	next := uniqueVals()
